@@ -104,6 +104,8 @@ pub fn programs(kind: &str, src: &[String]) -> Vec<(String, String)> {
         v.push(("top ends-without-newline".into(), body.clone()));
         v.push(("top ends-crlf".into(), format!("{body}\r\n")));
         if body.lines().last().map(|l| l.contains("//")).unwrap_or(false) { v.push(("top ends-cr".into(), format!("{body}\r"))); }
+        // a later statement that keeps its parentheses (it begins with a minus sign) with an end-of-line comment of its own
+        v.push(("top minus-eol".into(), format!("{body}\n(-1) // note after a minus statement\n(-2)\noutput w = 3 // and after an output\n(-w) // last")));
         v.push(("top gaps".into(), with_gaps(&base, 1)));
         v.push(("top gaps2".into(), with_gaps(&render(kind, src, false, true, ""), 3)));
         // statements that are one line in the source but wrap at the narrower widths, with 0 / 1 / 2 blank lines before them
